@@ -1,5 +1,6 @@
 """C03 — no network input can crash or hang an endpoint (DESIGN.md §4 C03, Appendix B, C)."""
 import re
+from collections import defaultdict
 
 from domain import BitWidth
 from loops import classify, cycle_avoiding, norm_vars, loop_entry_edges
@@ -1964,10 +1965,38 @@ def check_index_calls(cx, inst, reach):
                 for frx, crx, irx, reason in INDEX_CALL_TABLE:
                     if re.fullmatch(frx, b.path) and re.fullmatch(crx, norm_vars(coll)) and re.fullmatch(irx, norm_vars(idx)):
                         status = "reviewed: " + reason
+                        if b.path.endswith("LossIntervalQueue::reset") and not _lk_loss_queue_keeps_first(cx, inst):
+                            status = None
                         break
             inst.site(b, loc, construct, {"status": status})
             if not status:
                 inst.violation(b.path, construct, "indexing a collection (panics when out of range) with an index that is neither established below the length on every path nor a reviewed entry", at=b.span_at(loc))
+
+
+def _lk_loss_queue_keeps_first(cx, inst):
+    """entries[0] in LossIntervalQueue::reset: the queue only ever shrinks through truncate(n) with n >= 1 (no pop,
+    clear, drain or retain anywhere in the type), so an entry that exists stays"""
+    R = cx.R
+    ok = True
+    for ob in R.all_bodies():
+        if "loss_rate::LossIntervalQueue" not in ob.path:
+            continue
+        for l, t in ob.calls():
+            if not t.get("fn"):
+                continue
+            sn = R.short(t["fn"])
+            ce = show(ob.call_expr(t))
+            if not ce.startswith(sn + "(arg1.entries"):
+                continue
+            if sn == "VecDeque::truncate":
+                m = re.fullmatch(r"VecDeque::truncate\(arg1\.entries,(\d+)\)", ce)
+                if not m or int(m.group(1)) < 1:
+                    inst.site(ob, l, "loss interval queue truncated to %s" % (m.group(1) if m else "a non-constant length"))
+                    ok = False
+            elif sn.split("::")[-1] in ("pop_front", "pop_back", "clear", "drain", "retain", "remove", "split_off", "swap_remove_back", "swap_remove_front"):
+                inst.site(ob, l, "loss interval queue shrunk by " + sn)
+                ok = False
+    return ok
 
 
 def _weights_index_in_range(b, idx_e):
@@ -2099,6 +2128,8 @@ def run(cx):
     check_index_inventory(cx)
     check_divisions(cx)
     check_shifts(cx)
+    check_arith(cx)
+    check_underflow(cx)
     # "offending input is discarded and the endpoint keeps serving its other connections": an unreadable datagram
     # does not end the step's socket drain
     from props.shared import socket_drain
@@ -2171,3 +2202,248 @@ SELFTEST = [
     {"name": "benign: rename locals in resynchronize", "edits": [{"file": "src/half_connection/packet_receiver/mod.rs", "old": "let mut sequence_id = base_id;\n\n        while sequence_id != sender_next_id {", "new": "let mut sequence_id = base_id;\n        let _unused_rename_probe = 0;\n\n        while sequence_id != sender_next_id {"}],
      "expect": []},
 ]
+
+
+# =================================================================================================
+# C03.Q overflow-checked arithmetic
+
+
+def _float_saturated(D):
+    """(functions whose result, fields whose content) can be a float-to-integer conversion of an unbounded float
+    expression: such a conversion saturates at the integer type's maximum (x/0.0, very large x), so the value can be
+    the largest value of its type whatever the bit-width analysis says about its sources"""
+    fns, casts = set(), {}
+    for b in D.all_bodies():
+        for loc, s in b.assigns():
+            rv = s["rv"]
+            if rv["k"] == "cast" and rv.get("ck") == "FloatToInt":
+                inner = show(b.operand_expr(rv["op"]))
+                bounded = re.match(r"(f64::round\()?f64::clamp\(", inner) or re.match(r"mul\((0\.\d+,cast<f64>\(|cast<f64>\(.*\),0\.\d+\)$)", inner)
+                if not bounded:
+                    casts.setdefault(b.path, []).append(show(b.rvalue_expr(rv)))
+    for p, cs in casts.items():
+        b = [x for x in D.all_bodies() if x.path == p][0]
+        try:
+            r = show(b.local_expr(0))
+        except Exception:
+            r = ""
+        if any(c in r for c in cs):
+            fns.add(p)
+    short = {D.short(p) if hasattr(D, "short") else p for p in fns}
+    names = {p.split("::")[-1] for p in fns}
+    fields = set()
+    for b in D.all_bodies():
+        for loc, s in b.assigns():
+            if s["pl"]["p"]:
+                e = show(b.rvalue_expr(s["rv"]))
+                if any(re.search(r"\b%s\(" % re.escape(n), e) for n in names):
+                    ps = show(b.place_expr(s["pl"]))
+                    fields.add(ps.split(".")[-1])
+    return fns, names, fields
+
+
+ARITH_TABLE = [
+    # (function regex, operator, operand regex over the printed expression, reason)
+    (r".*emit::(Data|Ack)FrameEmitter.*::push", "Add", r"(Data|Ack)FrameBuilder::size\(.*\),(Data|Ack)FrameBuilder::encoded_size\(", "sizes of one frame under construction (<= MAX_FRAME_SIZE, tested right after) and of one datagram / ack group"),
+    (r".*frame_queue::FeedbackGen::put_ack_data", "Add", r"total_ack_size", "bytes acknowledged in one feedback interval: each term is the size of a frame this endpoint sent (<= 1472), one term per frame in the 4096-frame window, reset at every feedback"),
+    (r".*frame_queue::FrameQueue::acknowledge_group", "Add", r"var,cast<usize>\(Option::unwrap\(FrameLog::get_frame_mut\(", "sum of the sizes of at most 32 sent frames"),
+    (r".*loss_rate::LossIntervalQueue::push_nack", "Add", r"arg2,arg3", "frame counts of one reorder-buffer advance: both bounded by the 4096-frame window (callers: FeedbackGen::notify_advancement / notify_ack closures)"),
+    (r".*fragment_buffer::FragmentBuffer::write", "Add", r"\[T\]::len\(arg3\)", "offset / running total inside a buffer that was allocated for num_fragments * MAX_FRAGMENT_SIZE bytes (C04.c): bounded by the allocation"),
+    (r".*assembly_window::AssemblyWindow::try_add", "Add", r"arg1\.alloc,assembly_window::packet_alloc_size\(", "bytes currently reserved (<= max_alloc + one packet, C06.a) plus (fragment_id_last + 1) * MAX_FRAGMENT_SIZE <= 2^16 * 1448"),
+    (r".*packet_sender::PacketSender::(enqueue_packet|emit_packet)", "Add", r"arg1\.(total_size|alloc),", "byte counters of packets held in memory: bounded by the address space"),
+    (r".*HalfConnection::emit_data_frames", "Add", r"arg2,(arg3|mul\(arg3,shl\(1,)", "now_ms + rtt_ms * 2^k, k <= MAX_SEND_COUNT (C12.q): the RTT estimate is a weighted mean of locally measured samples, each at most the clock reading"),
+    (r".*HalfConnection::emit_data_frames", "Mul", r"arg3,shl\(1,", "rtt_ms * 2^k with k <= MAX_SEND_COUNT (C12.q, C03.O)"),
+    (r".*HalfConnection::step", "Mul", r"SendRateComp::rtt_ms\(.*\),.*\),4", "4 * RTT estimate: the estimate is a weighted mean of locally measured samples, each at most the clock reading"),
+    (r".*recv_rate_set::RecvRateSet::rate_limited_update::\{closure#0\}", "Mul", r"2,arg1\.1", "2 * rtt_ms (captured parameter of rate_limited_update, the RTT estimate: at most the clock reading)"),
+    (r".*packet_receiver::PacketReceiver::handle_datagram", "Add", r"packet_count,1", "packets of one channel inside the receive window: at most the window size (4096)"),
+    (r".*build::AckFrameBuilder::add", "Add", r"arg1\.count,1", "ack groups in one frame: the emitter closes the frame at MAX_FRAME_SIZE (161 groups)"),
+]
+
+
+def check_arith(cx, iid="C03.Q"):
+    """T6: `a + b` and `a * b` on integers panic on overflow in builds with overflow checks and wrap otherwise.  Every
+    such operation in the crate (rustc emits an Overflow assertion for each in the dev profile) cannot overflow: by the
+    bit-width analysis of its operands, by a structural bound, because it adds a bounded amount to a 64-bit clock
+    reading / length / byte count that is not a saturated float conversion, or by a reviewed entry.  A value converted
+    from an unbounded float expression (RTO = 2*MSS/X, W_init/R) saturates at its type's maximum and is never assumed
+    small."""
+    D = cx.D
+    bw = BitWidth(D)
+    f2i_fns, f2i_names, f2i_fields = _float_saturated(D)
+
+    def tainted(e):
+        return any(re.search(r"\b%s\(" % re.escape(n), e) for n in f2i_names) or any(re.search(r"\.%s\b|\b%s\(" % (re.escape(f), re.escape(f)), e) for f in f2i_fields)
+    with cx.instance(iid, "T6 overflow inventory", "every overflow-checked integer addition / multiplication cannot overflow: operand widths, structural bound, 64-bit quantity plus a bounded amount, or reviewed entry; float-saturated values are never assumed small", floor=60, exact_floor=False) as inst:
+        inst.note("float-saturated results: %s; fields holding them: %s" % (sorted(x.split("::")[-1] for x in f2i_fns), sorted(f2i_fields)))
+        for b in D.all_bodies():
+            for bb in sorted(b.reachable):
+                t = b.term(bb)
+                msg = str(t.get("msg"))
+                if t["k"] != "assert" or msg not in ("Overflow(Add)", "Overflow(Mul)"):
+                    continue
+                st = [s for s in b.stmts(bb) if s["k"] == "assign" and s["rv"]["k"] == "bin" and s["rv"]["op"].endswith("WithOverflow")]
+                if not st:
+                    continue
+                rv = st[-1]["rv"]
+                loc = Loc(bb, len(b.stmts(bb)))
+                op = "Add" if "Add" in msg else "Mul"
+                e = b.rvalue_expr(rv)
+                es = show(e)
+                from domain import type_width
+                T = type_width(str(rv.get("ty", "")).split(",")[0].strip("( "))
+                wa, wb = bw.operand(b, rv["a"], ()), bw.operand(b, rv["b"], ())
+                taint = tainted(es)
+                status = None
+                fits = (max(wa, wb) + 1 <= T) if op == "Add" else (wa + wb <= T)
+                if fits and not taint:
+                    status = "bit-width analysis: %d and %d bits fit %d" % (wa, wb, T)
+                if not status and not taint:
+                    ua, ub = _excl_upper_bound(cx, b, e[2]), _excl_upper_bound(cx, b, e[3])
+                    if ua and ub and ((ua - 1) + (ub - 1) if op == "Add" else (ua - 1) * (ub - 1)) < (1 << T):
+                        status = "structural bound: operands below %d and %d" % (ua, ub)
+                if not status and not taint and op == "Add" and T == 64 and min(wa, wb) <= 48:
+                    status = "64-bit clock reading / length / byte count plus an amount below 2^%d" % min(wa, wb)
+                if not status and not taint and op == "Mul" and T == 64 and min(wa, wb) <= 16 and re.search(r"MAX_FRAGMENT_SIZE|MSS", es):
+                    status = "a fragment count or length times the fragment size: bounded by the address space"
+                reason = None
+                if not status:
+                    nes = norm_vars(es)
+                    for frx, o, orx, why in ARITH_TABLE:
+                        if o == op and re.fullmatch(frx, b.path) and re.search(orx, nes):
+                            status, reason = "reviewed", why
+                            break
+                inst.site(b, loc, "%s %s" % (msg, norm_vars(es)[:90]), {"status": status, "widths": [wa, wb, T], "float_saturated": taint, "reason": reason})
+                if not status:
+                    inst.violation(b.path, "%s %s" % (op.lower(), norm_vars(es)[:80]),
+                                   "overflow-checked %s `%s` is not shown to stay inside %d bits (operand widths %d and %d%s): it panics in builds with overflow checks and wraps otherwise"
+                                   % ("addition" if op == "Add" else "multiplication", es[:150], T, wa, wb, "; an operand is a float conversion that saturates at the type's maximum" if taint else ""), at=b.span_at(loc))
+
+
+# =================================================================================================
+# C03.U overflow-checked subtraction
+
+
+def _dominating_edge_lit(cx, b, loc, rx):
+    """is the block of loc reached only through switch edges carrying a literal that matches rx (whatever was
+    written since)?  Used for `match self.n { 2 => { …; self.n -= 1; …; self.n -= 1 } }`."""
+    fa = cx.fa(b)
+    good = set()
+    for (x, y, lab), lits in fa.edge_lits.items():
+        if any(re.fullmatch(rx, l) for l in lits):
+            good.add((x, y))
+    # backward search from loc.bb to entry that avoids every good edge
+    seen, st = set(), [loc.bb]
+    preds = defaultdict(list)
+    for x in b.reachable:
+        for y, _ in b.succ[x]:
+            preds[y].append(x)
+    while st:
+        y = st.pop()
+        if y in seen:
+            continue
+        seen.add(y)
+        if y == 0:
+            return False
+        for x in preds[y]:
+            if (x, y) not in good:
+                st.append(x)
+    return True
+
+
+SUB_TABLE = [
+    # (function regex, minuend regex, subtrahend regex, reason, linked edge-literal regex or None)
+    (r".*reorder_buffer::ReorderBuffer::(put|advance)", r"arg1\.frame_count", r"1", "inside the arm / loop that established frame_count >= 1 (two decrements only inside `frame_count == 2`)", r"(eq\(2,arg1\.frame_count\)|eq\(arg1\.frame_count,2\)|ne\(0,arg1\.frame_count\))"),
+    (r".*fragment_buffer::FragmentBuffer::write", r"arg1\.num_fragments", r"1", "num_fragments = fragment_id_last + 1 >= 1 (ActiveEntry::new, C04.c)", None),
+    (r".*fragment_buffer::FragmentBuffer::write", r"arg1\.fragments_remaining", r"1", "a fragment is counted only when its bit was clear: as many decrements as bits, fragments_remaining starts at num_fragments (C04.f)", None),
+    (r".*assembly_window::AssemblyWindow::clear", r"arg1\.alloc", r".*alloc_size|var", "releases what try_add charged for this slot (C06.a/C06.b pairing)", None),
+    (r".*packet_receiver::PacketReceiver::receive", r".*\.packet_count", r"1", "one decrement per delivered packet, one increment per accepted packet of that channel (handle_datagram)", None),
+    (r".*packet_sender::PacketSender::emit_packet", r"arg1\.total_size", r"\[T\]::len\(.*\.data\)", "a stale TimeSensitive packet leaves the queue with the size enqueue_packet added (C20.b)", None),
+    (r".*packet_sender::PacketSender::acknowledge", r"arg1\.(alloc|total_size)", r".*", "refunds what emit_packet charged / enqueue_packet added for the released slot (C06.g, C20.b)", None),
+]
+
+
+def check_underflow(cx, iid="C03.U"):
+    """T6: `a - b` on unsigned integers panics below zero in builds with overflow checks and wraps otherwise.  Every such
+    subtraction has b <= a: established on every path (comparison, non-zero test, length test), structural (a literal's
+    length, a range variable's lower bound, x + c - c'), a difference of two readings of the endpoint's monotonic
+    clock, the signed flush credit, or a reviewed entry (paired accounting, linked to the pairing rules)."""
+    D = cx.D
+    with cx.instance(iid, "T6 underflow inventory", "every overflow-checked subtraction has subtrahend <= minuend: established, structural, clock difference, signed credit, or reviewed entry", floor=60, exact_floor=False) as inst:
+        for b in D.all_bodies():
+            fa = None
+            for bb in sorted(b.reachable):
+                t = b.term(bb)
+                if t["k"] != "assert" or str(t.get("msg")) != "Overflow(Sub)":
+                    continue
+                st = [s for s in b.stmts(bb) if s["k"] == "assign" and s["rv"]["k"] == "bin" and s["rv"]["op"].endswith("WithOverflow")]
+                if not st:
+                    continue
+                rv = st[-1]["rv"]
+                loc = Loc(bb, len(b.stmts(bb)))
+                e = b.rvalue_expr(rv)
+                A, B = show(e[2]), show(e[3])
+                ty = str(rv.get("ty", "")).split(",")[0].strip("( ")
+                status = reason = None
+                # structural
+                m = re.fullmatch(r"\[T\]::len\(Box::new\((array\{.*\}|repeat:(\d+)\{.*\})\)\)", A)
+                if m and B.isdigit():
+                    n = int(m.group(2)) if m.group(2) else None
+                    if n is None:
+                        try:
+                            n = len(e[2][2][0][2][0][2])
+                        except Exception:
+                            n = None
+                    if n is not None and int(B) <= n:
+                        status = "length of a %d-byte literal minus %s" % (n, B)
+                if not status and B.isdigit():
+                    mm = re.fullmatch(r"(?:Range|RangeInclusive)::next\(var(\d+)\)@Some\.0", A)
+                    if mm:
+                        for l2, kind, node in b.defs.get(int(mm.group(1)), []):
+                            ce = b.call_expr(node) if kind == "call" else b.rvalue_expr(node["rv"]) if kind == "assign" else None
+                            if ce and ce[0] == "call" and ce[1].split("::")[-1] == "into_iter" and ce[2]:
+                                ce = ce[2][0]
+                            if ce and ce[0] == "agg" and str(ce[1]).startswith("Range") and show(ce[2][0]).isdigit() and int(show(ce[2][0])) >= int(B):
+                                status = "loop variable of a range starting at %s" % show(ce[2][0])
+                    mm = re.fullmatch(r"add\((.*)\)", A)
+                    if not status and mm:
+                        from props.shared import _split_top
+                        for part in _split_top(mm.group(1)):
+                            try:
+                                c = int(part) if part.isdigit() else D.const_int(part)
+                            except Exception:
+                                c = None
+                            if c is not None and c >= int(B):
+                                status = "x + %d - %s" % (c, B)
+                # established
+                if not status:
+                    fa = fa or cx.fa(b)
+                    alts = fa.at(loc) or []
+
+                    def holds(alt):
+                        for l in alt:
+                            if l in ("le(%s,%s)" % (B, A), "lt(%s,%s)" % (B, A)):
+                                return True
+                            if B == "1" and l in ("ne(0,%s)" % A, "lt(0,%s)" % A):
+                                return True
+                            mm2 = re.fullmatch(r"l([te])\((\d+),(.*)\)", l)
+                            if mm2 and mm2.group(3) == A and B.isdigit() and int(mm2.group(2)) + (1 if mm2.group(1) == "t" else 0) >= int(B):
+                                return True
+                        return False
+                    if alts and all(holds(a) for a in alts):
+                        status = "established on every path: %s <= %s" % (B[:40], A[:40])
+                # classes
+                if not status and ty == "isize" and re.search(r"flush_alloc|arg1\.\d", A):
+                    status = "signed flush credit: clamped to [-MAX_FRAME_SIZE .., burst] by step (C13.e) and debited by one frame size (<= 1472) at a time"
+                if not status and ty == "u64" and re.fullmatch(r"arg\d+(\.0)?", A) and re.search(r"(_ms|time\w*)(@Some\.0)?$", B):
+                    status = "difference of two readings of the endpoint's monotonic clock (the stored one is earlier: C10.a / clock-store rules)"
+                if not status:
+                    for frx, arx, brx, why, link in SUB_TABLE:
+                        if re.fullmatch(frx, b.path) and re.fullmatch(arx, norm_vars(A)) and re.fullmatch(brx, norm_vars(B)):
+                            if link and not _dominating_edge_lit(cx, b, loc, link):
+                                continue
+                            status, reason = "reviewed", why
+                            break
+                inst.site(b, loc, "sub %s - %s" % (norm_vars(A)[:50], norm_vars(B)[:50]), {"status": status, "reason": reason})
+                if not status:
+                    inst.violation(b.path, "sub %s - %s" % (norm_vars(A)[:50], norm_vars(B)[:40]),
+                                   "overflow-checked subtraction `%s - %s` is not shown to have subtrahend <= minuend on every path: it panics in builds with overflow checks and wraps to a huge value otherwise" % (A[:100], B[:100]), at=b.span_at(loc))
